@@ -323,7 +323,12 @@ def _chunk_worker(args) -> dict:
     rng = random.Random("%s/%s/%d/%d" % (suite_name, prop, seed, idx))
     res = {"n": 0, "disagreements": [], "violations": [], "features": {}, "keys": [], "samples": [], "errors": []}
     try:
-        cases = suite.corpus(prop) if idx < 0 else suite.generate(rng, n, prop, tier)
+        if idx == -1:
+            cases = suite.corpus(prop)
+        elif idx <= -2:  # exhaustive small scope (thorough tier): part (-idx-2) of n parts
+            cases = suite.exhaustive(prop, -idx - 2, n)
+        else:
+            cases = suite.generate(rng, n, prop, tier)
         for i, c in enumerate(cases):
             c["id"] = i
         impls = []
@@ -368,6 +373,9 @@ def run_suite(suite_name: str, prop: str, seed: int, total: int, tier: str, work
     if not chunk:
         chunk = max(20, min(400, total // max(1, workers)))
     jobs = [(suite_name, prop, seed, -1, 0, tier)]
+    if tier == "thorough" and hasattr(get_suite(suite_name), "exhaustive"):
+        parts = 2 * workers
+        jobs += [(suite_name, prop, seed, -2 - k, parts, tier) for k in range(parts)]
     idx = 0
     left = total
     while left > 0:
